@@ -52,7 +52,7 @@ TraceInit == /\ tid \in 1..NT /\ mode \in {0, 1} /\ l = 1
 IsEvent(name) == l <= Len(E) /\ E[l].ev = name /\ l' = l + 1 /\ UNCHANGED <<tid, mode>>
 
 Yielding == S!NAsm \/ S!RAsm0 \/ S!RNewAccept \/ S!SAsm0 \/ S!STryAccept \/ S!AAsm \/ S!AFin
-Internal == \/ S!Call \/ S!LoopReturn \/ S!LoopMaxiter \/ S!LoopNext \/ S!LShort \/ S!LCall \/ S!LFinite \/ S!LCheck
+Internal == \/ S!Call \/ S!LoopReturn \/ S!LoopNonFinite \/ S!LoopMaxiter \/ S!LoopNext \/ S!LShort \/ S!LCall \/ S!LFinite \/ S!LCheck
             \/ S!NLin \/ S!RTop \/ S!RNewReject \/ S!SLin \/ S!STryReject \/ S!STryFail \/ S!ASolve \/ S!AEnd
 
 TYield == /\ IsEvent("yield") /\ Yielding /\ pc' = "loop"
